@@ -228,6 +228,14 @@ def _der(r, s, ht=1):
     return secp.der_encode(r, s) + bytes([ht])
 
 
+def _sized(rbytes, sbytes, rhigh=False, shigh=False):
+    r = (1 << (8 * rbytes - 1)) - 5 if not rhigh else (1 << (8 * rbytes)) - 5
+    s = (1 << (8 * sbytes - 1)) - 9 if not shigh else (1 << (8 * sbytes)) - 9
+    return _der(r % secp.N or 1, s % secp.N or 1)
+
+
+SIG_SIZES = {73: _sized(32, 31, True, False) + b'', 70: _sized(31, 32), 69: _sized(31, 31), 68: _sized(30, 31)}
+SIG_SIZES[73] = _der((1 << 255) + 11, (secp.N - 7))          # r and s with the high bit set (high S, still strict DER)
 SIG_A = _der(secp.pub(7)[0] % secp.N, 0x1234567890abcdef1234567890abcdef1234567890abcdef1234567890abcdef)
 SIG_B = _der(secp.pub(9)[0] % secp.N, 0x0f00000000000000000000000000000000000000000000000000000000000001)
 P2PKH = b'\x76\xa9\x14' + H1 + b'\x88\xac'
@@ -236,6 +244,10 @@ P2PKH = b'\x76\xa9\x14' + H1 + b'\x88\xac'
 def _spec_std(kind, variant):
     """Standard spends.  variant 0 = canonical pushes, 1 = OP_PUSHDATA1 pushes in scriptSig, 2 = other sighash byte"""
     sig = SIG_A if variant != 2 else SIG_A[:-1] + b'\x83'
+    if variant in SIG_SIZES:
+        # the size classes of a strictly DER encoded signature (with its hash-type byte): 73 = r and s with the high
+        # bit set, 72 / 71 the usual ones, 70 / 69 / 68 = leading zero bytes in r and/or s
+        sig = SIG_SIZES[variant]
     def P(d):
         return codec.push(d) if variant != 1 else b'\x4c' + bytes([len(d)]) + d
     out = [[50000, P2PKH.hex()], [0, '6a04deadbeef']]
@@ -1546,6 +1558,8 @@ def _tx_cases(seed, quick):
     # --- D. standard spends
     for k in STD_KINDS:
         for v in (0, 1, 2):
+            add(_spec_std(k, v))
+        for v in sorted(SIG_SIZES):
             add(_spec_std(k, v))
     # --- E. counts
     small = [1, 2, 3]
